@@ -20,7 +20,7 @@
 // `if`/`else` chains (no init statement), `return`, calls to `must.Be.…` (debug assertions, no-ops),
 // and `for init; i < E; i++ { … }` / `i <= E` where `i` is the integer counter declared by `init`
 // with a non-negative constant, the body assigns neither `i` nor a variable of `E`, and contains no
-// return/break/continue; and `for i := range x`, `for i, v := range x`, `for _, v := range x` over a
+// break/continue; and `for i := range x`, `for i, v := range x`, `for _, v := range x` over a
 // slice (the body may assign elements of x but not x, i or v): an index loop whose bound len(x) is
 // evaluated once.  A loop becomes a fuel-recursive auxiliary definition `<f>_loop<k>` over the
 // tuple of variables it assigns, called with fuel `E` (`E + 1`), which bounds the iteration count.
@@ -32,6 +32,22 @@
 //	bytes.Compare(a, b) != 0 / == 0   ↦  a != b / a == b   (byte-wise inequality)
 //	bits.OnesCount64(x)               ↦  Go.popcount64 x
 //	bitmap.Mask[k]                    ↦  Go.mask64 k        (= 2^k - 1)
+//	bitmap.Bit[k]                     ↦  Go.bit64 k         (= 2^k)
+//	binary.LittleEndian.PutUintN(b,v) ↦  b := Go.putUintLittleEndian (N/8) b v   (BigEndian alike)
+//	binary.LittleEndian.UintN(s)      ↦  Go.uintLittleEndian (N/8) s
+//
+// also: slicing x[l:h] of a slice/string (List.drop/take), `a, b := e1, e2`, calls of functions that
+// were translated before, `d.(T)` on an interface parameter (the parameter is a value of type T),
+// `return` inside a loop (the loop definition then returns `state × Option result`), a struct value
+// and a slice of structs (tuples; `x.f` is a projection), `make([]T, n, c)` (the capacity does not
+// influence the value).
+//
+// Fragments (the translate… helpers at the end): the right-hand side of an assignment, a result
+// expression, an argument of a call, the low bound of a slice expression, the statements before a
+// call with the call's arguments as results; optionally with the locals replaced by their unique
+// definitions (`inline`), or looking into the helper function that an assignment calls
+// (translateAssignedVia).  What a fragment reads and does not define — including the results of
+// calls that are not translated (bitmap.Rank128, …) — is a parameter of the definition.
 //
 // Anything else: fail("cannot translate …") — the translator never guesses.
 //
@@ -51,6 +67,7 @@ import (
 	"math/big"
 	"os"
 	"path/filepath"
+	"regexp"
 	"sort"
 	"strings"
 )
@@ -269,6 +286,9 @@ type callee struct {
 
 var translated = map[string]callee{}
 
+// binary.LittleEndian.PutUint16 / binary.BigEndian.Uint32 …
+var binaryOrder = regexp.MustCompile(`^binary\.(LittleEndian|BigEndian)\.(PutUint|Uint)(16|32|64)$`)
+
 type leanParam struct {
 	name string
 	key  string // identity: object address or selector source
@@ -292,6 +312,8 @@ type funcTr struct {
 	forced  map[types.Object]types.Type
 	mutated map[types.Object]bool // pointer parameters whose fields the function assigns
 	synth   map[string]bool       // generated names (loop lengths)
+	resLean string                // the Lean result type, when it is known from the signature
+	inline  bool                  // extraction mode: a local with a unique assignment is replaced by its definition
 	loopCnt int
 }
 
@@ -314,10 +336,33 @@ func (t *funcTr) typeOf(e ast.Expr) types.Type {
 				if ft, ok := t.forced[o]; ok {
 					return ft
 				}
+				if pt := t.primitiveType(o); pt != nil {
+					return pt
+				}
 			}
 		}
 	}
 	return nil
+}
+
+// primitiveType: the type of a local that is defined by `x := bits.OnesCount64(…)` (go/types does not
+// know the imported function; the specified primitive returns an int)
+func (t *funcTr) primitiveType(o types.Object) types.Type {
+	var res types.Type
+	if t.fd == nil || t.fd.Body == nil {
+		return nil
+	}
+	ast.Inspect(t.fd.Body, func(x ast.Node) bool {
+		if a, ok := x.(*ast.AssignStmt); ok && a.Tok == token.DEFINE && len(a.Lhs) == 1 && len(a.Rhs) == 1 {
+			if id, ok := a.Lhs[0].(*ast.Ident); ok && t.info.Defs[id] == o {
+				if c, ok := a.Rhs[0].(*ast.CallExpr); ok && src(c.Fun) == "bits.OnesCount64" {
+					res = types.Typ[types.Int]
+				}
+			}
+		}
+		return true
+	})
+	return res
 }
 
 var basicOf = map[intTy]types.BasicKind{{8, true}: types.Int8, {16, true}: types.Int16, {32, true}: types.Int32,
@@ -447,6 +492,11 @@ func (t *funcTr) ref(e ast.Expr) (string, gty) {
 		if !ok {
 			t.fail(e, "identifier is not a variable")
 		}
+		if _, isParam := t.declAt[o]; t.inline && !isParam && !t.bound[o] {
+			if rhs := assignedTo(t.fd, x.Name); len(rhs) == 1 && !mentions(rhs[0], t.info, o) {
+				return t.val(rhs[0])
+			}
+		}
 		if t.bound[o] {
 			n := leanName(x.Name)
 			if old, ok := t.tyOf[n]; ok {
@@ -545,12 +595,113 @@ func (t *funcTr) val(e ast.Expr) (string, gty) {
 	if p, ok := e.(*ast.ParenExpr); ok {
 		return t.val(p.X)
 	}
+	if id, ok := e.(*ast.Ident); ok && id.Name != "nil" && t.obj(id) != nil && t.bound[t.obj(id)] {
+		if _, known := t.tyOf[leanName(id.Name)]; known {
+			return t.ref(e) // a local: its type was fixed when it was bound
+		}
+	}
+	if id, ok := e.(*ast.Ident); ok && t.inline && id.Name != "nil" {
+		if o := t.obj(id); o != nil {
+			if _, isParam := t.declAt[o]; !isParam && !t.bound[o] {
+				if rhs := assignedTo(t.fd, id.Name); len(rhs) == 1 && !mentions(rhs[0], t.info, o) {
+					return t.val(rhs[0])
+				}
+			}
+		}
+	}
 	// forms whose types go/types cannot know (imported packages are opaque to the extractor)
 	if ix, ok := e.(*ast.IndexExpr); ok && src(ix.X) == "bitmap.Mask" {
 		k, _ := t.expr(ix.Index)
 		return fmt.Sprintf("(Go.mask64 %s)", k), gty{k: kInt, it: intTy{64, false}}
 	}
+	if ix, ok := e.(*ast.IndexExpr); ok && src(ix.X) == "bitmap.Bit" {
+		k, _ := t.expr(ix.Index)
+		return fmt.Sprintf("(Go.bit64 %s)", k), gty{k: kInt, it: intTy{64, false}}
+	}
+	if ta, ok := e.(*ast.TypeAssertExpr); ok {
+		// d.(T) on an interface-typed parameter: the parameter is a value of type T
+		id, isId := ta.X.(*ast.Ident)
+		if !isId || ta.Type == nil {
+			t.fail(e, "type assertion")
+		}
+		o := t.obj(id)
+		decl := -1
+		if d, isDecl := t.declAt[o]; isDecl {
+			decl = d * 1000
+		} else if o == nil || t.bound[o] || !t.inline {
+			t.fail(e, "type assertion on something that is not a parameter")
+		}
+		// (a free variable of an inlined fragment — the result of a call that is not translated —
+		// is an input of the fragment like a parameter; the type of such a result may be unknown)
+		_, isIface := o.Type().Underlying().(*types.Interface)
+		if b, isBasic := o.Type().Underlying().(*types.Basic); !isIface && !(decl < 0 && isBasic && b.Kind() == types.Invalid) {
+			t.fail(e, "type assertion on something that is not an interface")
+		}
+		taTy := t.info.Types[ta.Type].Type
+		if tid, isId := ta.Type.(*ast.Ident); taTy == nil && isId {
+			// not recorded by go/types when the operand is of an unknown type: a predeclared type
+			if tn, isTn := types.Universe.Lookup(tid.Name).(*types.TypeName); isTn && (t.info.Uses[tid] == nil || t.info.Uses[tid] == tn) {
+				taTy = tn.Type()
+			}
+		}
+		if taTy == nil {
+			t.fail(e, "type assertion to an unsupported type")
+		}
+		g, ok := goKind(taTy)
+		if !ok {
+			t.fail(e, "type assertion to an unsupported type")
+		}
+		n := t.param(e, id.Name, fmt.Sprintf("var:%p", o), g, decl)
+		if t.tyOf[n].lean() != g.lean() || (g.k == kInt && t.tyOf[n].it != g.it) {
+			t.fail(e, "two type assertions of one parameter to different types")
+		}
+		return n, g
+	}
+	if sl, ok := e.(*ast.SliceExpr); ok {
+		if sl.Slice3 {
+			t.fail(e, "3-index slice")
+		}
+		x, xty := t.val(sl.X)
+		if xty.k != kBytes && xty.k != kSlice {
+			t.fail(e, "slicing of something that is not a slice or string")
+		}
+		x = seq(x, xty)
+		xty.nilable = false
+		lo, hi := "", ""
+		if sl.Low != nil {
+			lo, _ = t.expr(sl.Low)
+		}
+		if sl.High != nil {
+			hi, _ = t.expr(sl.High)
+		}
+		switch {
+		case lo == "" && hi == "":
+			return x, xty
+		case lo == "":
+			return fmt.Sprintf("(%s.take %s)", x, hi), xty
+		case hi == "":
+			return fmt.Sprintf("(%s.drop %s)", x, lo), xty
+		}
+		return fmt.Sprintf("((%s.drop %s).take (%s - %s))", x, lo, hi, lo), xty
+	}
 	if c, ok := e.(*ast.CallExpr); ok {
+		if m := binaryOrder.FindStringSubmatch(src(c.Fun)); m != nil && len(c.Args) == 1 && m[2] == "Uint" {
+			// binary.LittleEndian.Uint16(s) …
+			a, aty := t.val(c.Args[0])
+			if aty.k != kBytes {
+				t.fail(e, "encoding/binary read of something that is not a byte slice")
+			}
+			w := map[string]int{"16": 16, "32": 32, "64": 64}[m[3]]
+			return fmt.Sprintf("(Go.uint%s %d %s)", m[1], w/8, a), gty{k: kInt, it: intTy{w, false}}
+		}
+		if ce, ok := translated[src(c.Fun)]; ok && len(ce.results) == 1 && len(c.Args) == ce.nparams {
+			var args []string
+			for _, a := range c.Args {
+				v, _ := t.val(a)
+				args = append(args, v)
+			}
+			return fmt.Sprintf("(%s %s)", ce.lean, strings.Join(args, " ")), ce.results[0]
+		}
 		switch src(c.Fun) {
 		case "bits.OnesCount64":
 			if len(c.Args) != 1 {
@@ -571,8 +722,12 @@ func (t *funcTr) val(e ast.Expr) (string, gty) {
 			}
 			return fmt.Sprintf("(%s.length)", seq(a, aty)), gty{k: kInt, it: intTy{64, true}}
 		case "make":
-			if len(c.Args) != 2 {
-				t.fail(e, "make with a capacity")
+			// a capacity has no influence on the value (its evaluation must be pure: checked by
+			// translating it); `make` with a capacity below the length panics, like indexing out of range
+			if len(c.Args) == 3 {
+				t.expr(c.Args[2])
+			} else if len(c.Args) != 2 {
+				t.fail(e, "make")
 			}
 			ty, ok := goKind(t.info.Types[c.Args[0]].Type)
 			if !ok || (ty.k != kSlice && ty.k != kBytes) {
@@ -726,6 +881,12 @@ func (t *funcTr) expr(e ast.Expr) (string, intTy) {
 		}
 	}
 	switch x := e.(type) {
+	case *ast.TypeAssertExpr:
+		s, g := t.val(e)
+		if g.k != kInt {
+			t.fail(e, "not an integer")
+		}
+		return s, g.it
 	case *ast.Ident, *ast.SelectorExpr:
 		s, g := t.ref(e)
 		if g.k != kInt {
@@ -733,7 +894,7 @@ func (t *funcTr) expr(e ast.Expr) (string, intTy) {
 		}
 		return s, g.it
 	case *ast.IndexExpr:
-		if src(x.X) == "bitmap.Mask" {
+		if src(x.X) == "bitmap.Mask" || src(x.X) == "bitmap.Bit" {
 			s, g := t.val(e)
 			return s, g.it
 		}
@@ -785,6 +946,21 @@ func (t *funcTr) expr(e ast.Expr) (string, intTy) {
 	return "", ty
 }
 
+// exprAs: an operand of an arithmetic operator whose result type is `ty`; an untyped constant (its
+// conversion is not recorded by go/types when the other operand involves an imported package) takes
+// that type, as the Go specification says.
+func (t *funcTr) exprAs(e ast.Expr, ty intTy) (string, intTy) {
+	tv := t.info.Types[e]
+	if tv.Value != nil {
+		if b, ok := tv.Type.(*types.Basic); ok && b.Info()&types.IsUntyped != 0 && constant.ToInt(tv.Value).Kind() == constant.Int {
+			if s := pattern(tv.Value, ty.w); s != "" {
+				return s, ty
+			}
+		}
+	}
+	return t.expr(e)
+}
+
 // shiftCount: the count of a shift; a non-negative constant is its value.
 func (t *funcTr) shiftCount(e ast.Expr) string {
 	tv := t.info.Types[e]
@@ -812,8 +988,8 @@ func (t *funcTr) binary(at ast.Expr, op token.Token, l, r ast.Expr, ty intTy) st
 			return fmt.Sprintf("(Go.shr %s %s)", a, k)
 		}
 	}
-	a, aty := t.expr(l)
-	b, bty := t.expr(r)
+	a, aty := t.exprAs(l, ty)
+	b, bty := t.exprAs(r, ty)
 	if aty != ty || bty != ty {
 		t.fail(at, "operand types differ from the result type")
 	}
@@ -1120,13 +1296,13 @@ func (t *funcTr) loop(x *ast.ForStmt, ret func(*ast.ReturnStmt) string) (string,
 	bad := false
 	ast.Inspect(x.Body, func(n ast.Node) bool {
 		switch n.(type) {
-		case *ast.ReturnStmt, *ast.BranchStmt, *ast.GoStmt, *ast.DeferStmt:
+		case *ast.BranchStmt, *ast.GoStmt, *ast.DeferStmt:
 			bad = true
 		}
 		return true
 	})
 	if bad {
-		t.fail(x, "for loop: return / break / continue in the body")
+		t.fail(x, "for loop: break / continue in the body")
 	}
 	co := t.info.Defs[ctr]
 	if assigns(x.Body, co, t.info) {
@@ -1151,7 +1327,7 @@ func (t *funcTr) loop(x *ast.ForStmt, ret func(*ast.ReturnStmt) string) (string,
 // `condFn`, body (preceded by the Lean text of `preFn`, if any) followed by `post`; it returns the
 // Lean `let <state> := <aux> … <fuel> <state>` that runs it.
 func (t *funcTr) emitLoop(cn string, condFn func() string, preFn func() string, bodyStmts []ast.Stmt, post ast.Stmt,
-	fuelFn func() string, ret func(*ast.ReturnStmt) string) string {
+	fuelFn func() string, ret func(*ast.ReturnStmt) string) func(restFn func(string) string, ind string) string {
 	// the state: the counter and every current variable the body assigns
 	names := t.assignedOuter(bodyStmts)
 	hasCtr := false
@@ -1183,8 +1359,20 @@ func (t *funcTr) emitLoop(cn string, condFn func() string, preFn func() string, 
 	if preFn != nil {
 		pre = preFn()
 	}
+	// a `return` in the body ends the loop with `some result`
+	withRet := false
+	for _, st := range bodyStmts {
+		withRet = withRet || hasReturn(st)
+	}
+	loopRet := ret
+	if withRet {
+		if t.resLean == "" {
+			fail(t.what + ": return inside a loop of a function whose result type is not known in advance")
+		}
+		loopRet = func(r *ast.ReturnStmt) string { return "(" + tp + ", some (" + ret(r) + "))" }
+	}
 	const callMark = "\x00CALL\x00"
-	body := pre + t.block(append(append([]ast.Stmt{}, bodyStmts...), post), callMark, ret, "      ")
+	body := pre + t.block(append(append([]ast.Stmt{}, bodyStmts...), post), callMark, loopRet, "      ")
 	t.bound = saved
 	inState := map[string]bool{}
 	for _, n := range names {
@@ -1212,9 +1400,30 @@ func (t *funcTr) emitLoop(cn string, condFn func() string, preFn func() string, 
 		args = " " + strings.Join(free, " ")
 	}
 	body = strings.ReplaceAll(body, callMark, fmt.Sprintf("%s%s fuel %s", aux, args, tp))
-	t.aux = append(t.aux, fmt.Sprintf("def %s%s : Nat → %s → %s\n  | 0, st => st\n  | fuel + 1, %s =>\n    if %s then\n      (%s)\n    else %s\n",
-		aux, sig.String(), sty, sty, tp, c, body, tp))
-	return fmt.Sprintf("let %s := %s%s %s %s", tp, aux, args, fuelFn(), tp)
+	fuel := fuelFn()
+	if !withRet {
+		t.aux = append(t.aux, fmt.Sprintf("def %s%s : Nat → %s → %s\n  | 0, st => st\n  | fuel + 1, %s =>\n    if %s then\n      (%s)\n    else %s\n",
+			aux, sig.String(), sty, sty, tp, c, body, tp))
+		return func(restFn func(string) string, ind string) string {
+			return fmt.Sprintf("let %s := %s%s %s %s;\n%s%s", tp, aux, args, fuel, tp, ind, restFn(ind))
+		}
+	}
+	rty := t.resLean
+	if strings.Contains(rty, " ") {
+		rty = "(" + rty + ")"
+	}
+	psty := sty
+	if strings.Contains(psty, "×") {
+		psty = "(" + psty + ")"
+	}
+	t.aux = append(t.aux, fmt.Sprintf("def %s%s : Nat → %s → %s × Option %s\n  | 0, st => (st, none)\n  | fuel + 1, %s =>\n    if %s then\n      (%s)\n    else (%s, none)\n",
+		aux, sig.String(), sty, psty, rty, tp, c, body, tp))
+	k := t.loopCnt
+	return func(restFn func(string) string, ind string) string {
+		rest := restFn(ind + "  ")
+		return fmt.Sprintf("let loopRes%d := %s%s %s %s;\n%smatch loopRes%d.2 with\n%s| some earlyRet%d => earlyRet%d\n%s| none =>\n%s  (let %s := loopRes%d.1;\n%s  %s)",
+			k, aux, args, fuel, tp, ind, k, ind, k, k, ind, ind, tp, k, ind, rest)
+	}
 }
 
 // block translates a statement list.  `cont` is the Lean term that is the value of the block when
@@ -1247,6 +1456,25 @@ func (t *funcTr) block(stmts []ast.Stmt, cont string, ret func(*ast.ReturnStmt) 
 	case *ast.ExprStmt:
 		if c, ok := x.X.(*ast.CallExpr); ok && strings.HasPrefix(src(c.Fun), "must.Be.") {
 			return t.block(rest, cont, ret, ind) // a debug assertion: no effect
+		}
+		if c, ok := x.X.(*ast.CallExpr); ok {
+			if m := binaryOrder.FindStringSubmatch(src(c.Fun)); m != nil && m[2] == "PutUint" && len(c.Args) == 2 {
+				// binary.LittleEndian.PutUint16(b, v) writes the first bytes of the local slice b
+				id, isId := c.Args[0].(*ast.Ident)
+				if !isId || !t.bound[t.obj(id)] {
+					t.fail(s, "encoding/binary write into something that is not a local slice")
+				}
+				sl, sty := t.ref(id)
+				if sty.k != kBytes {
+					t.fail(s, "encoding/binary write into something that is not a byte slice")
+				}
+				w := map[string]int{"16": 16, "32": 32, "64": 64}[m[3]]
+				v, vty := t.expr(c.Args[1])
+				if vty != (intTy{w, false}) {
+					t.fail(s, "encoding/binary write of a value of the wrong type")
+				}
+				return letIn(sl, fmt.Sprintf("(Go.putUint%s %d %s %s)", m[1], w/8, sl, v))
+			}
 		}
 		t.fail(s, "expression statement")
 	case *ast.DeclStmt:
@@ -1329,6 +1557,32 @@ func (t *funcTr) block(stmts []ast.Stmt, cont string, ret func(*ast.ReturnStmt) 
 			}
 			return letIn(tuple(names), fmt.Sprintf("%s %s", ce.lean, strings.Join(args, " ")))
 		}
+		if len(x.Lhs) > 1 && len(x.Lhs) == len(x.Rhs) && (x.Tok == token.DEFINE || x.Tok == token.ASSIGN) {
+			// a, b := e1, e2: all right-hand sides are evaluated first
+			var vals, names []string
+			var tys []gty
+			for _, r := range x.Rhs {
+				v, g := t.val(r)
+				g.nilable = false
+				vals, tys = append(vals, v), append(tys, g)
+			}
+			for i, l := range x.Lhs {
+				id, ok := l.(*ast.Ident)
+				if !ok {
+					t.fail(s, "multiple assignment to something that is not a variable")
+				}
+				if t.bound[t.obj(id)] {
+					n := leanName(id.Name)
+					t.note(n, t.tyOf[n])
+					names = append(names, n)
+				} else if x.Tok == token.DEFINE {
+					names = append(names, bindLocal(id, tys[i]))
+				} else {
+					t.fail(s, "assignment to a variable that is not a local of the translated fragment")
+				}
+			}
+			return letIn(tuple(names), tuple(vals))
+		}
 		if len(x.Lhs) != 1 || len(x.Rhs) != 1 {
 			t.fail(s, "multiple assignment")
 		}
@@ -1402,8 +1656,8 @@ func (t *funcTr) block(stmts []ast.Stmt, cont string, ret func(*ast.ReturnStmt) 
 			}
 			return bound
 		}
-		call := t.emitLoop(cn, func() string { return t.bexpr(cond) }, nil, x.Body.List, x.Post, fuelFn, ret)
-		return fmt.Sprintf("let %s := %s;\n%s%s;\n%s%s", cn, iv, ind, call, ind, t.block(rest, cont, ret, ind))
+		wrap := t.emitLoop(cn, func() string { return t.bexpr(cond) }, nil, x.Body.List, x.Post, fuelFn, ret)
+		return fmt.Sprintf("let %s := %s;\n%s%s", cn, iv, ind, wrap(func(in string) string { return t.block(rest, cont, ret, in) }, ind))
 	case *ast.RangeStmt:
 		// `for i := range x`, `for i, v := range x`, `for _, v := range x` over a slice: an index loop
 		// whose bound, len(x), is evaluated once before the loop
@@ -1421,13 +1675,13 @@ func (t *funcTr) block(stmts []ast.Stmt, cont string, ret func(*ast.ReturnStmt) 
 		bad := false
 		ast.Inspect(x.Body, func(n ast.Node) bool {
 			switch n.(type) {
-			case *ast.ReturnStmt, *ast.BranchStmt, *ast.GoStmt, *ast.DeferStmt:
+			case *ast.BranchStmt, *ast.GoStmt, *ast.DeferStmt:
 				bad = true
 			}
 			return true
 		})
 		if bad {
-			t.fail(s, "range loop: return / break / continue in the body")
+			t.fail(s, "range loop: break / continue in the body")
 		}
 		// the body may assign elements of x but not x itself
 		if id, ok := x.X.(*ast.Ident); ok {
@@ -1485,13 +1739,13 @@ func (t *funcTr) block(stmts []ast.Stmt, cont string, ret func(*ast.ReturnStmt) 
 		}
 		post := &ast.IncDecStmt{X: key, Tok: token.INC}
 		t.info.Uses[key] = t.info.Defs[key]
-		call := t.emitLoop(cn, func() string {
+		wrap := t.emitLoop(cn, func() string {
 			t.note(cn, t.tyOf[cn])
 			t.note(ln, t.tyOf[ln])
 			return fmt.Sprintf("(Go.ltS 64 %s %s)", cn, ln)
 		}, pre, x.Body.List, post, func() string { return ln }, ret)
-		return fmt.Sprintf("let %s := (%s.length);\n%slet %s := 0;\n%s%s;\n%s%s", ln, xs, ind, cn, ind, call, ind,
-			t.block(rest, cont, ret, ind))
+		return fmt.Sprintf("let %s := (%s.length);\n%slet %s := 0;\n%s%s", ln, xs, ind, cn, ind,
+			wrap(func(in string) string { return t.block(rest, cont, ret, in) }, ind))
 	case *ast.IfStmt:
 		if x.Init != nil {
 			t.fail(s, "if with an init statement")
@@ -1651,6 +1905,37 @@ func translateFuncP(info *types.Info, files []*ast.File, fd *ast.FuncDecl, leanD
 	var resTys []gty
 	if fd.Type.Results == nil {
 		fail(leanDef + ": a result is expected")
+	}
+	// the result type, from the signature (needed in advance by loops that return)
+	{
+		var tys []string
+		known := true
+		for _, f := range fd.Type.Results.List {
+			n := len(f.Names)
+			if n == 0 {
+				n = 1
+			}
+			g, ok := goKind(info.Types[f.Type].Type)
+			if !ok {
+				known = false
+				break
+			}
+			ty, _ := result("", g)
+			if pat {
+				ty = g.lean()
+			}
+			for i := 0; i < n; i++ {
+				tys = append(tys, ty)
+			}
+		}
+		if known {
+			for i, ty := range tys {
+				if strings.Contains(ty, " ") && len(tys) > 1 {
+					tys[i] = "(" + ty + ")"
+				}
+			}
+			t.resLean = strings.Join(tys, " × ")
+		}
 	}
 	retTy := ""
 	ret := func(r *ast.ReturnStmt) string {
@@ -1834,7 +2119,22 @@ func translateAssigned(info *types.Info, files []*ast.File, fd *ast.FuncDecl, na
 	if len(rhs) != 1 {
 		fail(fmt.Sprintf("%s: exactly one assignment to %s expected, found %d", leanDef, name, len(rhs)))
 	}
-	return translateExpr(info, files, fd, rhs[0], leanDef)
+	t := newTr(leanDef, info, files, fd)
+	// an arithmetic right-hand side whose type go/types could not determine (an operand is the result
+	// of a call into an imported package) has the type of the integer variable it is assigned to
+	if _, known := t.inferInt(rhs[0]); !known {
+		ast.Inspect(fd.Body, func(x ast.Node) bool {
+			if a, ok := x.(*ast.AssignStmt); ok && len(a.Lhs) == 1 && len(a.Rhs) == 1 && a.Rhs[0] == rhs[0] {
+				if it, ok := intTypeOf(t.typeOf(a.Lhs[0])); ok {
+					t.force(rhs[0], it)
+				}
+			}
+			return true
+		})
+	}
+	s, g := t.val(rhs[0])
+	rt, v := result(s, g)
+	return fmt.Sprintf("def %s%s : %s :=\n  %s\n", leanDef, t.signature(), rt, v)
 }
 
 // translateNthAssigned: the n-th (0-based, source order) of exactly `of` assignments to `name`.
@@ -1860,6 +2160,212 @@ func translateFieldInit(info *types.Info, files []*ast.File, fd *ast.FuncDecl, f
 		fail(fmt.Sprintf("%s: exactly one `%s: …` expected, found %d", leanDef, field, len(vals)))
 	}
 	return translateExpr(info, files, fd, vals[0], leanDef)
+}
+
+// translateOpAssigned translates the right-hand side of the unique statement `name op= e`.
+func translateOpAssigned(info *types.Info, files []*ast.File, fd *ast.FuncDecl, name string, tok token.Token, leanDef string) string {
+	var rhs []ast.Expr
+	ast.Inspect(fd.Body, func(x ast.Node) bool {
+		if a, ok := x.(*ast.AssignStmt); ok && len(a.Lhs) == 1 && len(a.Rhs) == 1 && a.Tok == tok && src(a.Lhs[0]) == name {
+			rhs = append(rhs, a.Rhs[0])
+		}
+		return true
+	})
+	if len(rhs) != 1 {
+		fail(fmt.Sprintf("%s: exactly one `%s %s …` expected, found %d", leanDef, name, tok, len(rhs)))
+	}
+	return translateExpr(info, files, fd, rhs[0], leanDef)
+}
+
+// translateResult translates result `res` of return statement `n` (source order) of exactly `of`.
+func translateResult(info *types.Info, files []*ast.File, fd *ast.FuncDecl, n, of, res int, leanDef string) string {
+	var rets []*ast.ReturnStmt
+	ast.Inspect(fd.Body, func(x ast.Node) bool {
+		if r, ok := x.(*ast.ReturnStmt); ok {
+			rets = append(rets, r)
+		}
+		return true
+	})
+	if len(rets) != of || len(rets[n].Results) <= res {
+		fail(fmt.Sprintf("%s: %d return statements expected, found %d", leanDef, of, len(rets)))
+	}
+	return translateExpr(info, files, fd, rets[n].Results[res], leanDef)
+}
+
+// translateCallArg translates argument `arg` of call `n` (source order) of exactly `of` calls of `fun`.
+func translateCallArg(info *types.Info, files []*ast.File, fd *ast.FuncDecl, fun string, n, of, arg int, leanDef string) string {
+	cs := calls(fd.Body, fun)
+	if len(cs) != of || len(cs[n]) <= arg {
+		fail(fmt.Sprintf("%s: %d calls of %s expected, found %d", leanDef, of, fun, len(cs)))
+	}
+	return translateExpr(info, files, fd, cs[n][arg], leanDef)
+}
+
+// translateBeforeCall translates the statements of a function before the (unique, top-level)
+// statement that calls `fun`, and yields the call's arguments `args` as they are at the call.
+func translateBeforeCall(info *types.Info, files []*ast.File, fd *ast.FuncDecl, fun string, args []int, leanDef string) string {
+	at := -1
+	var call *ast.CallExpr
+	for i, st := range fd.Body.List {
+		ast.Inspect(st, func(x ast.Node) bool {
+			if c, ok := x.(*ast.CallExpr); ok && src(c.Fun) == fun {
+				if call != nil {
+					fail(leanDef + ": exactly one call of " + fun + " expected")
+				}
+				at, call = i, c
+			}
+			return true
+		})
+	}
+	if call == nil {
+		fail(leanDef + ": no call of " + fun)
+	}
+	ret := &ast.ReturnStmt{}
+	results := &ast.FieldList{}
+	for _, a := range args {
+		if a >= len(call.Args) {
+			fail(leanDef + ": arguments of " + fun)
+		}
+		ret.Results = append(ret.Results, call.Args[a])
+		tyExpr := ast.NewIdent("_")
+		info.Types[tyExpr] = types.TypeAndValue{Type: info.Types[call.Args[a]].Type}
+		results.List = append(results.List, &ast.Field{Type: tyExpr})
+	}
+	body := append(append([]ast.Stmt{}, fd.Body.List[:at]...), ret)
+	synth := &ast.FuncDecl{Name: fd.Name, Recv: fd.Recv, Doc: fd.Doc,
+		Type: &ast.FuncType{Params: fd.Type.Params, Results: results},
+		Body: &ast.BlockStmt{List: body}}
+	return translateFunc(info, files, synth, leanDef)
+}
+
+// translateCallArgInline: like translateCallArg for the unique call of `fun`, with the locals that
+// the argument reads replaced by their (unique) definitions.
+func translateCallArgInline(info *types.Info, files []*ast.File, fd *ast.FuncDecl, fun string, arg int, leanDef string) string {
+	cs := calls(fd.Body, fun)
+	if len(cs) != 1 || len(cs[0]) <= arg {
+		fail(fmt.Sprintf("%s: one call of %s expected, found %d", leanDef, fun, len(cs)))
+	}
+	t := newTr(leanDef, info, files, fd)
+	t.inline = true
+	s, g := t.val(cs[0][arg])
+	rt, v := result(s, g)
+	return fmt.Sprintf("def %s%s : %s :=\n  %s\n", leanDef, t.signature(), rt, v)
+}
+
+// viaCallee: when the unique assignment to `name` in fd is `name = f(…)` / `name = x.f(…)` with f a
+// function or method declared (once) in these files whose body has exactly one return statement with
+// one result, the declaration of f and that result; otherwise fd and nil.  (A step that was moved
+// into a helper function is the same step.)
+func viaCallee(files []*ast.File, fd *ast.FuncDecl, name string) (*ast.FuncDecl, ast.Expr) {
+	rhs := assignedTo(fd, name)
+	if len(rhs) != 1 {
+		return fd, nil
+	}
+	c, ok := rhs[0].(*ast.CallExpr)
+	if !ok {
+		return fd, nil
+	}
+	fname := ""
+	switch f := c.Fun.(type) {
+	case *ast.Ident:
+		fname = f.Name
+	case *ast.SelectorExpr:
+		fname = f.Sel.Name
+	}
+	var found []*ast.FuncDecl
+	for _, f := range files {
+		for _, d := range f.Decls {
+			if d, ok := d.(*ast.FuncDecl); ok && d.Name.Name == fname && d.Body != nil {
+				found = append(found, d)
+			}
+		}
+	}
+	if fname == "" || len(found) != 1 {
+		return fd, nil
+	}
+	var rets []*ast.ReturnStmt
+	ast.Inspect(found[0].Body, func(x ast.Node) bool {
+		if r, ok := x.(*ast.ReturnStmt); ok {
+			rets = append(rets, r)
+		}
+		return true
+	})
+	if len(rets) != 1 || len(rets[0].Results) != 1 {
+		return fd, nil
+	}
+	return found[0], rets[0].Results[0]
+}
+
+// translateAssignedVia: translateAssigned, or the result of the helper function the assignment calls.
+func translateAssignedVia(info *types.Info, files []*ast.File, fd *ast.FuncDecl, name, leanDef string) string {
+	callee, r := viaCallee(files, fd, name)
+	if r == nil {
+		return translateAssigned(info, files, fd, name, leanDef)
+	}
+	t := newTr(leanDef, info, files, callee)
+	t.inline = true
+	if _, known := t.inferInt(r); !known && callee.Type.Results != nil && len(callee.Type.Results.List) == 1 {
+		if it, ok := intTypeOf(info.Types[callee.Type.Results.List[0].Type].Type); ok {
+			t.force(r, it)
+		}
+	}
+	s, g := t.val(r)
+	rt, v := result(s, g)
+	return fmt.Sprintf("def %s%s : %s :=\n  %s\n", leanDef, t.signature(), rt, v)
+}
+
+// translateCallArgVia: argument `arg` of the unique call of `fun` in fd, or in the helper function
+// that the assignment to `name` calls.
+func translateCallArgVia(info *types.Info, files []*ast.File, fd *ast.FuncDecl, name, fun string, arg int, leanDef string) string {
+	callee, _ := viaCallee(files, fd, name)
+	if len(calls(fd.Body, fun)) > 0 {
+		callee = fd
+	}
+	return translateCallArg(info, files, callee, fun, 0, 1, arg, leanDef)
+}
+
+// translateResultOrAssigned: result `res` of the unique return statement; if that is just the local
+// `name`, the right-hand side of its unique assignment (so that `c := e; return c, r` and
+// `return e, …` give the same definition).
+func translateResultOrAssigned(info *types.Info, files []*ast.File, fd *ast.FuncDecl, res int, name, leanDef string) string {
+	var rets []*ast.ReturnStmt
+	ast.Inspect(fd.Body, func(x ast.Node) bool {
+		if r, ok := x.(*ast.ReturnStmt); ok {
+			rets = append(rets, r)
+		}
+		return true
+	})
+	if len(rets) != 1 || len(rets[0].Results) <= res {
+		fail(leanDef + ": exactly one return statement expected")
+	}
+	e := rets[0].Results[res]
+	if id, ok := e.(*ast.Ident); ok {
+		if rhs := assignedTo(fd, id.Name); len(rhs) == 1 {
+			e = rhs[0]
+		}
+	}
+	_ = name
+	return translateExpr(info, files, fd, e, leanDef)
+}
+
+// translateSliceLow translates the low bound of the unique slice expression `base[lo:hi]` of a
+// function, with the locals it reads replaced by their (unique) definitions.
+func translateSliceLow(info *types.Info, files []*ast.File, fd *ast.FuncDecl, base, leanDef string) string {
+	var los []ast.Expr
+	ast.Inspect(fd.Body, func(x ast.Node) bool {
+		if sl, ok := x.(*ast.SliceExpr); ok && src(sl.X) == base && sl.Low != nil {
+			los = append(los, sl.Low)
+		}
+		return true
+	})
+	if len(los) != 1 {
+		fail(fmt.Sprintf("%s: exactly one slice %s[lo:…] expected, found %d", leanDef, base, len(los)))
+	}
+	t := newTr(leanDef, info, files, fd)
+	t.inline = true
+	s, g := t.val(los[0])
+	rt, v := result(s, g)
+	return fmt.Sprintf("def %s%s : %s :=\n  %s\n", leanDef, t.signature(), rt, v)
 }
 
 // translateFirstResult translates the first result expression of the unique return statement.
@@ -1928,6 +2434,38 @@ func writeFuncs(repo string, trieFiles []*ast.File, info *types.Info, out string
 		return translateFuncP(info, trieFiles, fn("", "memIncrOfShortSize"), "memIncrOfShortSize", true)
 	})
 	whole("findMinShortSize", "", "findMinShortSize")
+	// getLeftChildID: the word-level pieces around the external bitmap.Rank128
+	glc := func() *ast.FuncDecl { return fn("SlimTrie", "getLeftChildID") }
+	emitDef(&b, "leftChildShortRank", func() string {
+		return translateOpAssigned(info, trieFiles, glc(), "r0", token.ADD_ASSIGN, "leftChildShortRank")
+	})
+	emitDef(&b, "leftChildShortBit", func() string {
+		return translateResult(info, trieFiles, glc(), 0, 2, 1, "leftChildShortBit")
+	})
+	emitDef(&b, "leftChildBitPos", func() string {
+		return translateCallArg(info, trieFiles, glc(), "bitmap.Rank128", 1, 2, 2, "leftChildBitPos")
+	})
+	// leftMost / rightMost: the child followed by each iteration (the loops themselves are
+	// `for { … break }` around getNode and the external bitmap.Rank128)
+	emitDef(&b, "leftMostNext", func() string {
+		return translateAssignedVia(info, trieFiles, fn("SlimTrie", "leftMost"), "idx", "leftMostNext")
+	})
+	emitDef(&b, "rightMostNext", func() string {
+		return translateAssignedVia(info, trieFiles, fn("SlimTrie", "rightMost"), "idx", "rightMostNext")
+	})
+	emitDef(&b, "rightMostBitPos", func() string {
+		return translateCallArgVia(info, trieFiles, fn("SlimTrie", "rightMost"), "idx", "bitmap.Rank128", 2, "rightMostBitPos")
+	})
+	vg := func() *ast.FuncDecl { return fn("VLenArray", "get") }
+	emitDef(&b, "vlenWordI", func() string { return translateAssigned(info, trieFiles, vg(), "wordI", "vlenWordI") })
+	emitDef(&b, "vlenBitI", func() string { return translateAssigned(info, trieFiles, vg(), "bitI", "vlenBitI") })
+	emitDef(&b, "vlenIthElt", func() string { return translateAssigned(info, trieFiles, vg(), "ithElt", "vlenIthElt") })
+	emitDef(&b, "vlenFixedFrom", func() string { return translateAssigned(info, trieFiles, vg(), "from", "vlenFixedFrom") })
+	// comparison of a key with a stored inner prefix (trie/strcmp.go)
+	emitDef(&b, "cmpStrBytes", func() string {
+		return translateFuncP(info, trieFiles, fn("", "cmpStrBytes"), "cmpStrBytes", true)
+	})
+	whole("strCmpUpto", "", "strCmpUpto")
 	// offset arithmetic of the inner-node bitmaps
 	emitDef(&b, "bigInnerOffset", func() string {
 		return translateFieldInit(info, trieFiles, fn("SlimTrie", "initVars"), "BigInnerOffset", "bigInnerOffset")
@@ -1964,6 +2502,58 @@ func writeFuncs(repo string, trieFiles []*ast.File, info *types.Info, out string
 		})
 		emitDef(&b, "encEncodedSize"+ty, func() string {
 			return translateFunc(encInfo, encFiles, funcDecl(encFiles, ty, "GetEncodedSize"), "encEncodedSize"+ty)
+		})
+	}
+	for _, ty := range []string{"I8", "I16", "I32", "I64", "U16", "U32", "U64"} {
+		ty := ty
+		emitDef(&b, "encode"+ty, func() string {
+			return translateFunc(encInfo, encFiles, funcDecl(encFiles, ty, "Encode"), "encode"+ty)
+		})
+		emitDef(&b, "decode"+ty, func() string {
+			return translateFunc(encInfo, encFiles, funcDecl(encFiles, ty, "Decode"), "decode"+ty)
+		})
+	}
+	// package array: the arithmetic of the lookups around bitmap.Rank64 / the inlined rank
+	var arrFiles []*ast.File
+	arrInfo := &types.Info{Types: map[ast.Expr]types.TypeAndValue{}, Defs: map[*ast.Ident]types.Object{}, Uses: map[*ast.Ident]types.Object{}}
+	emitDef(&b, "package array", func() string {
+		arrFiles = parseDir(filepath.Join(repo, "array"))
+		arrConf := types.Config{Importer: fakeImporter{}, Error: func(error) {}}
+		arrConf.Check("array", fset, arrFiles, arrInfo)
+		return ""
+	})
+	afn := func(recv, name string) *ast.FuncDecl { return funcDecl(arrFiles, recv, name) }
+	emitDef(&b, "arrayBmWord", func() string {
+		return translateResultOrAssigned(arrInfo, arrFiles, afn("", "bmBit"), 0, "c", "arrayBmWord")
+	})
+	emitDef(&b, "arrayBmBit", func() string {
+		return translateResultOrAssigned(arrInfo, arrFiles, afn("", "bmBit"), 1, "r", "arrayBmBit")
+	})
+	emitDef(&b, "arrayGetBytesStIdx", func() string {
+		return translateSliceLow(arrInfo, arrFiles, afn("Base", "GetBytes"), "a.Elts", "arrayGetBytesStIdx")
+	})
+	emitDef(&b, "arrayU16Cnt1", func() string {
+		return translateAssigned(arrInfo, arrFiles, afn("U16", "Get"), "cnt1", "arrayU16Cnt1")
+	})
+	emitDef(&b, "arrayU16StIdx", func() string {
+		return translateAssigned(arrInfo, arrFiles, afn("U16", "Get"), "stIdx", "arrayU16StIdx")
+	})
+	// package index: the keys and the offsets that NewSlimIndex passes to trie.NewSlimTrie
+	var idxFiles []*ast.File
+	idxInfo := &types.Info{Types: map[ast.Expr]types.TypeAndValue{}, Defs: map[*ast.Ident]types.Object{}, Uses: map[*ast.Ident]types.Object{}}
+	emitDef(&b, "package index", func() string {
+		idxFiles = parseDir(filepath.Join(repo, "index"))
+		idxConf := types.Config{Importer: fakeImporter{}, Error: func(error) {}}
+		idxConf.Check("index", fset, idxFiles, idxInfo)
+		return ""
+	})
+	emitDef(&b, "newSlimIndexArgs", func() string {
+		return translateBeforeCall(idxInfo, idxFiles, funcDecl(idxFiles, "", "NewSlimIndex"), "trie.NewSlimTrie", []int{1, 2}, "newSlimIndexArgs")
+	})
+	for _, m := range []string{"Get", "RangeGet"} {
+		m := m
+		emitDef(&b, "slimIndex"+m+"Offset", func() string {
+			return translateCallArgInline(idxInfo, idxFiles, funcDecl(idxFiles, "SlimIndex", m), "si.DataReader.Read", 0, "slimIndex"+m+"Offset")
 		})
 	}
 	b.WriteString("end Generated\n")
